@@ -9,7 +9,6 @@ import (
 	"io"
 	"os"
 	"os/exec"
-	"regexp"
 	"runtime"
 	"runtime/debug"
 	"runtime/metrics"
@@ -158,8 +157,6 @@ func c02ChildMain() {
 	}
 }
 
-var reFrame = regexp.MustCompile(`^([^\s(][^\n]*?)\(`)
-
 // panicSite returns the innermost non-runtime function of the panicking stack.
 func panicSite(stack []byte) string {
 	lines := strings.Split(string(stack), "\n")
@@ -177,8 +174,8 @@ func panicSite(stack []byte) string {
 			continue
 		}
 		fn := l
-		if m := reFrame.FindStringSubmatch(l); m != nil {
-			fn = m[1]
+		if j := strings.LastIndex(l, "("); j > 0 { // strip the argument list, keep "(*T).Method"
+			fn = l[:j]
 		}
 		loc := ""
 		if i+1 < len(lines) {
@@ -262,7 +259,7 @@ func (r *c02Runner) start() error {
 		return err
 	}
 	cmd := exec.Command(exe, "-test.run=^TestC02Child$", "-test.count=1", "-test.timeout=0", "-test.v=false")
-	cmd.Env = append(os.Environ(), c02ChildEnv+"=1", "GOMAXPROCS=2", "VERIF_EVIDENCE_OUT=/dev/null")
+	cmd.Env = append(os.Environ(), c02ChildEnv+"=1", "GOMAXPROCS=4", "VERIF_EVIDENCE_OUT=/dev/null")
 	cmd.ExtraFiles = []*os.File{reqR, respW}
 	tb := &tailBuffer{}
 	cmd.Stderr = tb
@@ -376,10 +373,9 @@ func crashSummary(tail string) (summary, site string) {
 			// first library frame after it
 			for _, f := range lines[i:] {
 				if strings.HasPrefix(f, "github.com/blinklabs-io/gouroboros") || strings.HasPrefix(f, "github.com/fxamacker") {
-					if m := reFrame.FindStringSubmatch(f); m != nil {
-						site = m[1]
-					} else {
-						site = f
+					site = f
+					if j := strings.LastIndex(f, "("); j > 0 {
+						site = f[:j]
 					}
 					break
 				}
